@@ -65,6 +65,10 @@ func GenericRegister[T any](key string) error {
 	for t.Kind() == reflect.Ptr {
 		t = t.Elem()
 	}
+	if key == "" {
+		// the decoder tells the kind of a node by which type key is non-empty
+		return fmt.Errorf("type[%s] cannot be registered with an empty key", t.String())
+	}
 	if nt, ok := m[key]; ok {
 		return fmt.Errorf("key[%s] already registered to %s", key, nt.String())
 	}
